@@ -40,7 +40,7 @@ def prob_list(draw, family, k):
 
 
 # ------------------------------------------------------------------ values
-LOWER = 'abcxyz' + 'éñ' + 'яжд' + 'ωλ'
+LOWER = 'abcxyz' + 'éñ' + 'яжд' + 'ωλ' + 'ß\ufb01'      # incl. letters whose upper-case form is longer (ß -> SS, ﬁ -> FI)
 DIGITS = '0123456789'
 OTHER = '!@#$.-_ *' + '€' + '\U0001F600' + '§'
 KEYB = 'qwe123asd!@#zxc'
